@@ -59,7 +59,21 @@ ForeignEnum == <<"enum", "Shade", "Enum", << <<"DARK", S("d")>>, <<"LIGHT", S("l
 ForeignHolder(arg) == <<"dc", "FHold", << <<"b", GBox(arg), <<"req">>, <<>> >> >>, <<>> >>
 Types1G == { GenHolder(TRUE), GenHolder(FALSE), GBox(<<"datetime">>), GBox(<<"union", << <<"int">>, <<"list", <<"int">> >> >> >>),
              ForeignHolder(ForeignItem), ForeignHolder(ForeignEnum), GBox(ForeignItem) }
-Types == IF Depth = 0 THEN Leaves ELSE IF Depth = 1 THEN Types1 \cup Types1N \cup Types1S \cup Types1U \cup Types1I \cup Types1G ELSE Types2
+\* GENERICS NESTED IN GENERICS: Node[T] (p: Pair[T, List[T]], q: Optional[Pair[List[T], Dict[str, T]]]) over a two-parameter generic
+\* Pair[A, B] -- the type variable occurs several times, top-level and nested, in the arguments of the inner alias
+TVarA == <<"tvar", "A">>
+TVarB == <<"tvar", "B">>
+GenOpt(params, args, tfields) == <<"generic", <<params, args, tfields>> >>
+GPair(a, b) == <<"dc", "Pair", << <<"first", a, <<"req">>, <<>> >>, <<"second", b, <<"req">>, <<>> >> >>,
+                 << <<"mixin", "plain">>, GenOpt(<<"A", "B">>, <<a, b>>, << <<"first", TVarA>>, <<"second", TVarB>> >>) >> >>
+NodeP(x) == GPair(x, <<"list", x>>)
+NodeQ(x) == <<"opt", GPair(<<"list", x>>, <<"dict", <<"str">>, x>>)>>
+GNode(arg) == <<"dc", "Node", << <<"p", NodeP(arg), <<"req">>, <<>> >>, <<"q", NodeQ(arg), <<"val", None>>, <<>> >> >>,
+                << <<"mixin", "plain">>, GenOpt(<<"T">>, <<arg>>, << <<"p", NodeP(TVar)>>, <<"q", NodeQ(TVar)>> >>) >> >>
+NodeHolder(plain) == <<"dc", "NH", << <<"a", GNode(<<"int">>), <<"req">>, <<>> >>, <<"b", <<"list", GNode(<<"date">>)>>, <<"fac", L(<<>>)>>, <<>> >> >>,
+                      IF plain THEN << <<"mixin", "plain">> >> ELSE <<>> >>
+Types1GG == { GNode(<<"int">>), GNode(<<"date">>), GNode(<<"text", "decimal">>), GPair(<<"date">>, <<"list", <<"date">> >>), NodeHolder(TRUE), NodeHolder(FALSE) }
+Types == IF Depth = 0 THEN Leaves ELSE IF Depth = 1 THEN Types1 \cup Types1N \cup Types1S \cup Types1U \cup Types1I \cup Types1G \cup Types1GG ELSE Types2
 FalsyLeaves == { <<"int">>, <<"float">>, <<"bool">>, <<"str">>, <<"bytes">>, <<"timedelta">>, <<"text", "decimal">>, <<"text", "fraction">> }
 AllTypes == Types \cup { Holder(t) : t \in Types } \cup { PlainHolder(t) : t \in Types }
             \cup (IF Depth = 1 THEN { Chain3(Holder(t)) : t \in Leaves \ { <<"none">> } } \cup { Chain3(PlainHolder(t)) : t \in RepLeaves } ELSE {})
